@@ -596,6 +596,46 @@ fn ber(run: &Run, thorough: bool, acc: &mut Acc) {
     });
     let t = std::mem::take(acc);
     *acc = t.merge(part);
+    // one point that runs long enough to receive intermediate progress reports (the reporter
+    // interval is 500 ms): the result file must hold the FINAL statistics of the point
+    {
+        let apath = tmp(run, "ber_long.alist");
+        let opath = tmp(run, "ber_long.out");
+        std::fs::write(&apath, c35.sparse().alist()).unwrap();
+        let mut need = 200_000u64;
+        for _attempt in 0..4 {
+            let a = sargs(&["ber", apath.to_str().unwrap(), "--min-ebn0=-4", "--max-ebn0=-3", "--step-ebn0=1", "--frame-errors", &need.to_string(), "--max-iter", "5", "--output-file", opath.to_str().unwrap()]);
+            acc.evals += 1;
+            let t0 = Instant::now();
+            let o = run_cli(&a, 240);
+            let key = "cli:ber:long-point".to_string();
+            let replay = json!({"kind": "cli", "args": a});
+            if o.timed_out || o.status != Some(0) {
+                acc.violate(key, format!("status {:?} (timed out {})", o.status, o.timed_out), replay);
+                break;
+            }
+            let text = std::fs::read_to_string(&opath).unwrap_or_default();
+            let rows: Vec<&str> = text.lines().skip_while(|l| !l.starts_with("--------|")).skip(1).filter(|l| !l.trim().is_empty()).collect();
+            let fes: Vec<f64> = rows.iter().filter_map(|r| r.split('|').nth(3).and_then(|x| x.trim().parse::<f64>().ok())).collect();
+            if rows.len() != 2 || fes.len() != 2 {
+                acc.violate(key, format!("{} result lines for 2 points", rows.len()), replay);
+                break;
+            }
+            if fes.iter().any(|&fe| fe < need as f64) {
+                acc.violate(key, format!("result file reports {:?} frame errors although {} were required at every point (not the final statistics)", fes, need), replay);
+                break;
+            }
+            // meaningful only if each point ran longer than the report interval
+            if t0.elapsed().as_secs_f64() > 2.4 {
+                acc.nontrivial += 1;
+                acc.count("ber_long_point_runs_with_intermediate_reports");
+                break;
+            }
+            need *= 4;
+        }
+        let _ = std::fs::remove_file(&apath);
+        let _ = std::fs::remove_file(&opath);
+    }
     let apath = tmp(run, "ber_bad.alist");
     std::fs::write(&apath, c35.sparse().alist()).unwrap();
     expect_failure(&sargs(&["ber", apath.to_str().unwrap(), "--min-ebn0=1", "--max-ebn0=1", "--step-ebn0=1", "--puncturing", "1,a"]), "malformed puncturing pattern", acc);
@@ -644,7 +684,7 @@ pub fn run(run: &Run) -> i32 {
         run,
         acc,
         Coverage {
-            rule: "real binary built from the working tree with the verification guard off; dvbs2: all 11 rates x --short (21 valid + the invalid 9/10 short) with stdout compared to Code::h() by digest and text, --girth for the two rate-1/2 codes (thorough: all), invalid rates/flags; ccsds: 4 rate strings x 4 block sizes (k = 16384 only 4/5 in quick), girth, ccsds-c2; mackay-neal and peg: a grid of (rows, cols, weights, uniform, min girth, search) x 3 seeds against the library result for that seed (for --search the seed printed on stderr); systematic: every 2x4 matrix and a slice (thorough: all) of 3x4 and 3x3 matrices as files, rank-deficient ones must give the error text; encode: 3 codes x every puncturing pattern up to length 4 (6; 9 for the 3x9 code, which contains the smallest pattern whose rate is inexact in binary) x 0..2 complete words x 0/1/k-1 trailing bytes x byte-value fills; ber: 4 Eb/N0 grids x BPSK/8PSK x outer-code threshold x decoders, result-file lines checked against the statistics identities; plus invalid invocations for every subcommand (non-zero status, message, no panic text). Every invocation under a 60-300 s watchdog. Each invocation is a distinct non-trivial case.".into(),
+            rule: "real binary built from the working tree with the verification guard off; dvbs2: all 11 rates x --short (21 valid + the invalid 9/10 short) with stdout compared to Code::h() by digest and text, --girth for the two rate-1/2 codes (thorough: all), invalid rates/flags; ccsds: 4 rate strings x 4 block sizes (k = 16384 only 4/5 in quick), girth, ccsds-c2; mackay-neal and peg: a grid of (rows, cols, weights, uniform, min girth, search) x 3 seeds against the library result for that seed (for --search the seed printed on stderr); systematic: every 2x4 matrix and a slice (thorough: all) of 3x4 and 3x3 matrices as files, rank-deficient ones must give the error text; encode: 3 codes x every puncturing pattern up to length 4 (6; 9 for the 3x9 code, which contains the smallest pattern whose rate is inexact in binary) x 0..2 complete words x 0/1/k-1 trailing bytes x byte-value fills; ber: 4 Eb/N0 grids x BPSK/8PSK x outer-code threshold x decoders, result-file lines checked against the statistics identities, plus one run whose points last longer than the 500 ms report interval (the file must hold the final statistics); plus invalid invocations for every subcommand (non-zero status, message, no panic text). Every invocation under a 60-300 s watchdog. Each invocation is a distinct non-trivial case.".into(),
             exhaustive: true,
             extra: timing,
             graph: None,
